@@ -26,6 +26,15 @@ def exclude_pred(name: str, annotation: Any, default: Any) -> bool:
     return name.startswith('dep_')
 
 
+def exclude_unannotated(name: str, annotation: Any, default: Any) -> bool:
+    """a predicate keyed on the annotation the library hands it: parameters WITHOUT annotation are injected dependencies"""
+    import inspect
+    return annotation is inspect.Parameter.empty
+
+
+PREDICATES = {True: exclude_pred, 'unannotated': exclude_unannotated}
+
+
 def build(spec: Dict[str, Any]):
     """-> (dispatcher, registry) for one generated method 'meth' (cached by spec: pjrpc caches functions forever anyway)"""
     key = json.dumps(spec['method'], sort_keys=True)
@@ -44,6 +53,8 @@ def build(spec: Dict[str, Any]):
         src = p['name']
         if p.get('ann'):
             src += ': ' + p['ann']
+        elif m['excluded'] == 'unannotated' and not p.get('excluded') and not p.get('ctx'):
+            src += ': int'        # in this mode every client parameter is annotated, only the injected one is not
         if 'default' in p:
             if p['default'].get('sentinel'):
                 ns_defaults[f"_SENTINEL_{p['name']}"] = object()    # a default that is not JSON-serialisable
@@ -52,7 +63,7 @@ def build(spec: Dict[str, Any]):
                 src += ' = ' + repr(p['default']['value'])
         parts.append(src)
     body = "return 1"
-    validator = validators.BaseValidator(exclude_param=exclude_pred) if m['excluded'] else None
+    validator = validators.BaseValidator(exclude_param=PREDICATES[m['excluded']]) if m['excluded'] else None
     ns: Dict[str, Any] = {'ViewMixin': pjrpc.server.ViewMixin, 'Optional': Optional, 'List': List, **ns_defaults}
     reg = pjrpc.server.MethodRegistry()
     ctx_name = next((p['name'] for p in params if p.get('ctx')), None)
@@ -93,7 +104,7 @@ def signatures(n: int) -> Iterator[List[Dict[str, Any]]]:
 
 def variants(params: List[Dict[str, Any]]) -> Iterator[Dict[str, Any]]:
     n_pk = len([p for p in params if p['kind'] == 'PK'])
-    for excluded in (False, True):
+    for excluded in (False, True, 'unannotated'):
         ps = list(params) + ([{'name': 'dep_inj', 'kind': 'KO', 'default': {'value': None}, 'excluded': True}] if excluded else [])
         yield {'params': ps, 'flavour': 'func', 'excluded': excluded, 'view_ctx': False}
         for pos in range(0, n_pk + 1):
@@ -128,7 +139,7 @@ class C17(Check):
     rule = (
         "cases: (a) enumerated: every signature of <= 2 (quick) / <= 3 (thorough) parameters over positional-or-keyword / keyword-only x with / "
         "without defaults (JSON values and non-JSON-serialisable sentinel objects), x context parameter designations (none, by name at each positional position, keyword-only, view constructor) x "
-        "exclusion predicate on/off (an extra defaulted 'dep_' parameter, excluded in the extractor and in the validator) x function / view "
+        "exclusion predicate off / by name prefix / by missing annotation (an extra defaulted 'dep_' parameter, excluded in the extractor and in the validator) x function / view "
         "method, x the same function registered a second time without context designation (probed in both orders); (b) Hypothesis: signatures of up to 4 parameters with annotations. For each: the OpenAPI request schema and the OpenRPC params "
         "list are generated with PydanticSchemaExtractor, and ALL params objects over subsets of (documented names + one undocumented name + "
         "the context name + the excluded name) are dispatched. Oracle: documented names == the signature's client parameters, documented "
@@ -220,7 +231,7 @@ class C17(Check):
         sig = ', '.join(p['name'] + ('=..' if 'default' in p else '') + ('[ctx]' if p.get('ctx') else '') + ('[excl]' if p.get('excluded') else '') + ('/KO' if p['kind'] == 'KO' else '') for p in params)
         where = f"def meth({sig}) exposed as {exposed!r} (registered twice: {m.get('twice')}) flavour={m['flavour']} view_ctx={m['view_ctx']}"
         discs: List[Disc] = []
-        extractor = PydanticSchemaExtractor(exclude_param=exclude_pred) if m['excluded'] else PydanticSchemaExtractor()
+        extractor = PydanticSchemaExtractor(exclude_param=PREDICATES[m['excluded']]) if m['excluded'] else PydanticSchemaExtractor()
         documented: Dict[str, Tuple[List[str], List[str]]] = {}
         try:
             oa = openapi.OpenAPI(info=openapi.Info(title='t', version='1'), schema_extractor=extractor).schema(path='/api', methods_map={'': reg.values()})
